@@ -63,6 +63,8 @@ GAP = 0.5
 TINY = 2.0 ** -20
 NAMES = ["x", "y", "z", "u"]
 HUGE_AMOUNT = 17
+# kind -> (first left edge, width); all dyadic, so that every edge is exact
+FIX_OFFSETS = {"fix1": (1.0, 1.0), "fix3": (3.0, 1.0), "fix3A": (3.0, 1.0), "fixm": (-2.5, 0.5), "fixs": (2.25, 2.0)}
 
 
 # ---------------------------------------------------------------------------------------------
@@ -75,6 +77,9 @@ def layout_pairs(n, layout):
     kind, _, arg = layout.partition(":")
     if kind in ("fix", "fixA"):
         return [(float(i), float(i + 1)) for i in range(n)]
+    if kind in FIX_OFFSETS:  # fixed-width grids whose first bin is not bin 0 of the grid (seeded C10-fixedwidth-coarser-grid-offset)
+        lo, w = FIX_OFFSETS[kind]
+        return [(lo + i * w, lo + (i + 1) * w) for i in range(n)]
     mask = int(arg) if arg else 0
     gap = TINY if kind == "t" else GAP
     pairs = []
@@ -95,6 +100,11 @@ def make_binning(n, layout):
         return FixedWidthBinning(bin_width=1.0, bin_count=n, min=0.0)
     if kind == "fixA":
         return FixedWidthBinning(bin_width=1.0, bin_count=n, min=0.0, adaptive=True)
+    if kind in FIX_OFFSETS:
+        lo, w = FIX_OFFSETS[kind]
+        if kind == "fixs":
+            return FixedWidthBinning(bin_width=w, bin_count=n, bin_times_min=1, bin_shift=0.25)
+        return FixedWidthBinning(bin_width=w, bin_count=n, min=lo, adaptive=(kind == "fix3A"))
     edges = [pairs[0][0]] + [p[1] for p in pairs]
     if kind == "num":
         return NumpyBinning(np.array(edges))
@@ -542,12 +552,12 @@ def selected_masks(n):
 def layouts_1d(n):
     out = masks(n) + [f"so:{m}" for m in range(2 ** (n - 1))]
     out += [f"t:{1 << k}" for k in range(n - 1)]
-    out += ["fix", "fixA", "num", "numo", "arr"]
+    out += ["fix", "fixA", "num", "numo", "arr"] + sorted(FIX_OFFSETS)
     return out
 
 
 def layouts_2d(n, thorough):
-    out = (masks(n) if (thorough or n <= 4) else selected_masks(n)) + ["fix", "num"]
+    out = (masks(n) if (thorough or n <= 4) else selected_masks(n)) + ["fix", "num", "fix1", "fixm"]
     if n >= 2:
         out.append(f"t:{1 << (n - 2)}")
     return out
